@@ -4,7 +4,7 @@
    content, a failed sync makes nothing durable, a failed delete keeps the file): the trace of the
    SUCCESSFUL operations of a faulty run is an ordinary trace of coq/Storage/Crash.v, so the
    discipline theorems apply to it verbatim. *)
-From TV Require Import Base.Prelude Storage.Crash Storage.CrashProofs Storage.WriteOnce Storage.Faults.
+From TV Require Import Base.Prelude Storage.Crash Storage.CrashProofs Storage.WriteOnce Storage.Faults Storage.Pipeline Storage.PipelineProofs.
 Local Open Scope N_scope.
 
 (* A commit call that returns Ok(o) is complete and durable: at the moment it returns, the durable
@@ -50,3 +50,23 @@ Theorem C11_F111_mechanism : forall p n, wfirst_bad [WOpen p; WAppend p n; WOpen
 Proof. exact f111_mechanism. Qed.
 Theorem C11_F111_class_is_narrow : f111_class [10; 11] [11] = true /\ f111_class [10; 11] [12] = false /\ f111_class [10] [] = false.
 Proof. vm_compute. repeat split; reflexivity. Qed.
+
+
+(* ---- "the process neither aborts nor hangs": the indexing pipeline when a worker dies (Storage/Pipeline.v) ---- *)
+(* add_document sends batches over a bounded channel; a full channel blocks the caller; every worker and the writer's status
+   hold receiver handles, and a blocked sender is woken only when the LAST handle is gone.  With kill() dropping the status's
+   handle (KILL_DROPS_RECEIVER regenerated from index_writer_status.rs): for every capacity, every number of workers >= 1
+   and every sequence of sends, takes and worker deaths, the caller is never left blocked without a live worker. *)
+Theorem C11_add_document_cannot_hang_on_a_dead_pipeline : forall cap w evs,
+  w <> 0 -> stuck (prun_gen kill_drops_receiver (pipe0 cap w) evs) = false.
+Proof. exact no_stuck_sender. Qed.
+(* ... and once a worker has died every further add fails fast (nothing is silently accepted) *)
+Theorem C11_dead_pipeline_refuses : forall s, p_alive s = false -> p_blocked s = false -> snd (pstep s PSend) = PErr.
+Proof. exact dead_pipeline_refuses. Qed.
+(* the variant in which kill() only clears the flag hangs *)
+Theorem C11_kill_without_drop_hangs :
+  stuck (prun_gen false (pipe0 2 1) [PSend; PSend; PSend; PWorkerDies]) = true /\
+  stuck (prun_gen true (pipe0 2 1) [PSend; PSend; PSend; PWorkerDies]) = false.
+Proof. exact kill_without_drop_hangs. Qed.
+
+Print Assumptions C11_add_document_cannot_hang_on_a_dead_pipeline.
